@@ -172,7 +172,7 @@ PROPS["C06"] = dict(
 PROPS["C09"] = dict(
     streams=["C09"],
     compare=cmp_laws,
-    gate_imports="From Cel.Model Require Import Compare.\nFrom Cel.Proofs Require Import CompareProofs FloatOrder EqSymmetry.\nFrom Coq Require Import QArith.\nOpen Scope Z_scope.",
+    gate_imports="From Cel.Model Require Import Compare.\nFrom Cel.Proofs Require Import CompareProofs FloatOrder EqSymmetry EqEquiv.\nFrom Coq Require Import QArith.\nOpen Scope Z_scope.",
     exhaustive=True,
     exhaustive_note="all ordered pairs of the boundary value set through Value::eq and partial_cmp "
                     "directly plus the pair laws; all numeric pairs through the 12 program forms; "
